@@ -61,15 +61,24 @@ def hashseeds(tier):
 def _gen_query(rng):
     preds = ["x.a = 1", "x.b > 2", "y.c < 3", "x.b = y.b", "z.a = x.a", "x.a = x.a", "NOT x.a = 1", "y.b IN (1, 2, 3)", "z.c LIKE 'k%'", "x.a + 1 > y.c", "y.c IS NULL", "TRUE", "1 = 1",
              "x.b = 2", "x.a <> 1", "(x.a = 1 OR y.c < 3)", "x.b BETWEEN 1 AND 5", "COALESCE(y.c, 0) = 0"]
+    multi = ["y.c + z.a = x.b", "x.a + y.b + z.a > 0", "y.b = z.a + x.b", "x.a = z.a + y.c", "z.c = CONCAT(x.a, y.c)", "y.b + z.c = w.e", "x.a = w.d AND y.b = z.a"]
     k = rng.randint(3, 7)
     ps = [rng.choice(preds) for _ in range(k)]
+    if rng.random() < 0.5:
+        ps += rng.sample(multi, rng.randint(1, 3))  # conjuncts that mention three tables: several joins compete for them
+        rng.shuffle(ps)
     if rng.random() < 0.5:
         ps.append(ps[0])  # duplicate operand
     conn = rng.choice([" AND ", " AND ", " OR "])
     where = conn.join(ps)
     if rng.random() < 0.4:
         where = "(%s) AND (%s)" % (where, " OR ".join(rng.sample(preds, 3)))
-    shape = rng.randrange(5)
+    shape = rng.randrange(7)
+    if shape == 5:
+        return "SELECT x.a FROM x, y, z, w WHERE %s" % where
+    if shape == 6:
+        on = " AND ".join(rng.sample(multi, 2) + [rng.choice(preds)])
+        return "SELECT * FROM x CROSS JOIN y CROSS JOIN z JOIN w ON %s" % on
     if shape == 0:
         return "SELECT x.a, y.c FROM x JOIN y ON x.b = y.b JOIN z ON z.a = x.a WHERE %s" % where
     if shape == 1:
